@@ -146,7 +146,41 @@ def mapping_protocol(make_file, make_block, make_cat, lazy):
     return None
 
 
+def equality_contract(make_file, make_block, make_cat, lazy):
+    """== on columns, categories, blocks and files is equality of the string tables (row counts included)"""
+    tables = {"one row": {"x": ["a"], "y": ["1"]}, "two equal rows": {"x": ["a", "a"], "y": ["1", "1"]},
+              "three equal rows": {"x": ["a", "a", "a"], "y": ["1", "1", "1"]}, "two rows": {"x": ["a", "b"], "y": ["1", "1"]},
+              "other column": {"x": ["a"], "z": ["1"]}, "other order": {"y": ["1"], "x": ["a"]}}
+    objs = {}
+    for name, t in tables.items():
+        cat = make_cat({k: np.array(v) for k, v in t.items()})
+        blk = make_block()
+        blk["c"] = cat
+        f = make_file()
+        f["b"] = blk
+        if lazy:
+            f = type(f).deserialize(f.serialize())
+        objs[name] = f
+    for n1, f1 in objs.items():
+        for n2, f2 in objs.items():
+            same_table = {k: list(v) for k, v in tables[n1].items()} == {k: list(v) for k, v in tables[n2].items()}
+            levels = {"file": (f1, f2), "block": (f1["b"], f2["b"]), "category": (f1["b"]["c"], f2["b"]["c"])}
+            if set(tables[n1]) == set(tables[n2]):
+                k0 = sorted(tables[n1])[0]
+                levels["column"] = (f1["b"]["c"][k0], f2["b"]["c"][k0])
+                same_col = tables[n1][k0] == tables[n2][k0]
+            for level, (a, b) in levels.items():
+                exp = same_table if level != "column" else same_col
+                if bool(a == b) != exp:
+                    return f"{level} of '{n1}' == {level} of '{n2}' gives {a == b}, the tables are {'equal' if exp else 'different'}"
+    return None
+
+
 for lazy in (False, True):
+    R.check("containers behave as mutable mappings", f"CIF equality lazy={lazy}", {"flavour": "cif", "lazy": lazy, "what": "=="},
+            lambda lazy=lazy: equality_contract(pdbx.CIFFile, pdbx.CIFBlock, pdbx.CIFCategory, lazy))
+    R.check("containers behave as mutable mappings", f"BinaryCIF equality lazy={lazy}", {"flavour": "bcif", "lazy": lazy, "what": "=="},
+            lambda lazy=lazy: equality_contract(pdbx.BinaryCIFFile, pdbx.BinaryCIFBlock, pdbx.BinaryCIFCategory, lazy))
     R.check("containers behave as mutable mappings", f"CIF mapping lazy={lazy}", {"flavour": "cif", "lazy": lazy},
             lambda lazy=lazy: mapping_protocol(pdbx.CIFFile, pdbx.CIFBlock, pdbx.CIFCategory, lazy))
     R.check("containers behave as mutable mappings", f"BinaryCIF mapping lazy={lazy}", {"flavour": "bcif", "lazy": lazy},
